@@ -17,7 +17,7 @@ def check(run):
     run.regenerate()
     run.lean_props(common.modules_for("C20"))
     from .. import glue_modes
-    glue_modes.corr(run, quick)   # Lean model of Modes (constructor, layout, dispatch, conj pairing, product terms, copies) vs the real class
+    run.attempt("corr:glue_modes.corr", glue_modes.corr, run, quick)   # Lean model of Modes (constructor, layout, dispatch, conj pairing, product terms, copies) vs the real class
     rng = run.rng
     LM = 8 if quick else 12
     nprng = np.random.default_rng(rng.randint(0, 2 ** 31))
